@@ -59,6 +59,7 @@ import (
 	"github.com/hashicorp/consul/agent/structs"
 	raftstorage "github.com/hashicorp/consul/internal/storage/raft"
 	"github.com/hashicorp/consul/internal/verifharness/hx"
+	"github.com/hashicorp/consul/internal/verifharness/storex"
 	"github.com/hashicorp/consul/proto-public/pbresource"
 	"google.golang.org/protobuf/proto"
 )
@@ -1034,6 +1035,7 @@ func main() {
 	}
 	cedSection(run)
 	envSection(run)
+	storeSection(run)
 	var seen []string
 	missing := []string{}
 	for _, b := range regOrder {
@@ -1163,4 +1165,24 @@ func envSection(run *hx.Run) {
 			run.Violate(sig, "replicated data depends on the server's own bind address (state.addIPOffset -> netutil.IsDualStack): "+f.desc, f.replay)
 		}
 	}
+}
+
+
+// storeSection ties the Lean store model (CV.Store.apply — the functions replicas_agree_store and
+// rejected_leaves_state of CV/Props/C01.lean are about) to the real FSM inside this check: generated
+// histories of the modelled families (KV, session, register/deregister, txn, tombstone reap, prepared
+// query rows; package storex, the harness of C03/C04) are applied to a real fsm.FSM and replayed by
+// the model; every result and a full dump of the modelled tables — lock-delay keys (the model's
+// `loc`) included — after every command are compared line by line. The deeper validation of that
+// model (reference map, LockInv monitors, exhaustive small scopes) is the job of bin/check C03 / C04.
+func storeSection(run *hx.Run) {
+	profiles := []*storex.Profile{
+		{Name: "c01-session-heavy", Preamble: 90,
+			W:       map[string]int{"kv": 34, "sc": 14, "sd": 10, "reg": 12, "dereg": 10, "reap": 3, "pqs": 4, "pqd": 2, "txn": 16},
+			KVVerbs: map[string]int{"set": 12, "cas": 6, "delete": 8, "delete-cas": 4, "delete-tree": 8, "lock": 40, "unlock": 20}},
+		{Name: "c01-catalog-txn", Preamble: 70, EmptyKeyPc: 2,
+			W:       map[string]int{"kv": 22, "sc": 12, "sd": 4, "reg": 20, "dereg": 12, "reap": 2, "pqs": 3, "pqd": 1, "txn": 28},
+			KVVerbs: map[string]int{"set": 12, "cas": 6, "delete": 6, "delete-cas": 4, "delete-tree": 6, "lock": 50, "unlock": 16}},
+	}
+	storex.RandomHistories(run, profiles, run.Scale(60, 500), 35, func() []storex.Monitor { return nil }, false)
 }
